@@ -25,8 +25,9 @@ type WorkerPool struct {
 	// ShutdownComplete is a WaitGroup that is used to wait for the WorkerPool to shutdown.
 	ShutdownComplete sync.WaitGroup
 
-	// isRunning indicates if the WorkerPool is running.
-	isRunning bool
+	// isRunning indicates if the WorkerPool is running (atomic, so that the dispatcher and Submit never have to wait for
+	// the mutex that Start holds while it waits for a previous shutdown to complete).
+	isRunning atomic.Bool
 
 	// dispatcherChan is the channel that is used to dispatch tasks to the workers.
 	dispatcherChan chan *Task
@@ -67,10 +68,10 @@ func (w *WorkerPool) Start() *WorkerPool {
 	w.mutex.Lock()
 	defer w.mutex.Unlock()
 
-	if !w.isRunning {
+	if !w.isRunning.Load() {
 		w.ShutdownComplete.Wait()
 
-		w.isRunning = true
+		w.isRunning.Store(true)
 
 		w.startDispatcher()
 		w.startWorkers()
@@ -131,10 +132,7 @@ func (w *WorkerPool) DebounceFunc() (debounce func(workerFunc func(), optStackTr
 
 // IsRunning returns true if the WorkerPool is running.
 func (w *WorkerPool) IsRunning() bool {
-	w.mutex.RLock()
-	defer w.mutex.RUnlock()
-
-	return w.isRunning
+	return w.isRunning.Load()
 }
 
 // WorkerCount returns the number of workers that are used to execute tasks.
@@ -147,8 +145,8 @@ func (w *WorkerPool) Shutdown() *WorkerPool {
 	w.mutex.Lock()
 	defer w.mutex.Unlock()
 
-	if w.isRunning {
-		w.isRunning = false
+	if w.isRunning.Load() {
+		w.isRunning.Store(false)
 
 		for range w.workerCount {
 			w.shutdownSignal <- struct{}{}
